@@ -74,6 +74,13 @@ def alap_propagation_rule(ctx: Ctx, rid: str):
 
 def run_extra(ctx: Ctx):
     alap_propagation_rule(ctx, "R08.14")
+    # ---------------------------------------------------------------- R08.15 a dependant on a container starts when the container's children are done: the
+    # roll-up that runs while leaves are placed spans the children's dates only (= C10 R10.2 / C04 R04.14)
+    from .c10 import rollup_accumulator_rule
+    rollup_accumulator_rule(ctx, "R08.15", which=("upd",))
+    # ---------------------------------------------------------------- R08.16 a backward predecessor keeps the gap of ITS edge, not the largest of any (= C04 R04.16)
+    from .c04 import gap_of_own_edge_rule
+    gap_of_own_edge_rule(ctx, "R08.16")
     # ---------------------------------------------------------------- R08.13 an ALAP task's deadline is the earliest start of ALL its successors, including those that depend on it through their container (= C04 R04.1)
     from .c04 import edge_set_rule
     edge_set_rule(ctx, "R08.13", only={"TaskScenario._getSuccessors", "TaskScenario._gapToSuccessor", "TaskScenario._alapReadyForScheduling"})
